@@ -161,6 +161,7 @@ type event struct {
 
 // pick chooses the next event: faults cost one deviation each.
 func pick(c *choice.Ctx, menu []event) *event {
+	pz.step++
 	var normal, faults []int
 	for i := range menu {
 		if menu[i].fault {
@@ -337,6 +338,11 @@ func wait() {
 	synctest.Wait()
 	hmu.Lock()
 	report.Progress()
+	if pz.abort {
+		pz.abort = false
+		pz.c = nil
+		choice.AbortUnowned()
+	}
 }
 
 func hsleep(d time.Duration) {
@@ -371,8 +377,11 @@ var pz struct {
 	used bool
 	hits map[string]int
 	cap  int
-	min  int
 	n    int64 // pauses taken (evidence counter)
+
+	window, windows, step int
+
+	abort bool // an unowned-subtree signal was caught on an implementation goroutine
 
 	sleepUntil time.Time // the harness lets virtual time pass until then: no pause before that instant
 }
@@ -383,10 +392,14 @@ func pauseBegin(c *choice.Ctx) {
 	if !pauseMode {
 		return
 	}
-	pz.c, pz.ch, pz.at, pz.used = c, nil, "", false
+	pz.c, pz.ch, pz.at, pz.used, pz.abort = c, nil, "", false, false
+	// The pause space is partitioned by the harness step during whose reaction the goroutine is stopped: the window is the
+	// first choice of the execution, which spreads the subtrees over the worker processes (pause choice points are binary
+	// with a heavy default branch; as leading choices they would leave all the work to one shard).
+	pz.windows = report.ParamInt("PAUSEWINDOWS", 7)
+	pz.window, pz.step = c.Choose(pz.windows, "pause-window"), 0
 	pz.hits = map[string]int{}
 	pz.cap = report.ParamInt("PAUSEHITS", 1)
-	pz.min = report.ParamInt("SHARDDEPTH", 3) + 1
 	pause.Hook = pauseHook
 	pause.Enable(true)
 }
@@ -395,9 +408,22 @@ func pauseBegin(c *choice.Ctx) {
 func pauseHook(id string) {
 	var ch chan struct{}
 	publish(func() {
-		if pz.c == nil || pz.used || len(pz.c.Choices()) < pz.min {
+		if pz.c == nil || pz.used || pz.abort {
 			return
 		}
+		if st := min(pz.step, pz.windows-1); st != pz.window {
+			return
+		}
+		defer func() {
+			// the choice point may be the one at which the search core finds that this subtree is another worker's: the
+			// signal is raised again on the harness goroutine (in wait), where Explore recovers it
+			if r := recover(); r != nil {
+				if !choice.IsUnowned(r) {
+					panic(r)
+				}
+				pz.abort = true
+			}
+		}()
 		if !pz.sleepUntil.IsZero() && time.Now().Before(pz.sleepUntil) {
 			return // time is passing: a goroutine held here would stand still for seconds, which is not a preemption
 		}
